@@ -48,6 +48,11 @@ THEOREMS = [
     'CC.C06_gen_idioms', 'CC.C06_gen_transformers', 'CC.C06_gen_isolated',
     'CC.C06_gen_open_circuit_impedance', 'CC.C06_gen_open_circuit_impedance_rows',
     'CC.C06_gen_element_impedance', 'CC.C06_gen_element_impedance_rows', 'CC.C06_gen_value_lossless',
+    # round 5c — translator tie, second part (CC/Properties/C06Gen2.lean): open_circuit_voltage / short_circuit_current of
+    # bias_point_analysis.py as regenerated into CC/Gen/Port.lean equal Net.openCircuitVoltage / Net.shortCircuitCurrent
+    # (hypotheses: N.check = ok — a constructed Network —, anyNan constantly false; idioms Py.Scalar / Py.divScalar of CC/Model/PortBase2.lean)
+    'CC.C06_gen_open_circuit_voltage', 'CC.C06_gen_open_circuit_voltage_value',
+    'CC.C06_gen_short_circuit_current', 'CC.C06_gen_short_circuit_current_rows',
     # round 5b — the equivalent source as an explicit NETWORK (CC/Properties/C06Replace.lean): thevNet (ideal source U in series with Z,
     # internal node) / nortNet (ideal source I parallel to Y); any load branch sees the same voltage, current and port voltage
     'CC.C06_thevNet_wellPosed_iff', 'CC.C06_nortNet_wellPosed_iff', 'CC.C06_thevenin_network_spec',
@@ -63,7 +68,7 @@ THEOREMS = [
     'CC.C06_capacitor_dc_open', 'CC.C06_series_RL', 'CC.C06_series_LC', 'CC.C06_capacitor_sweep',
     'CC.C06_sweep_pointwise', 'CC.C06_sweep_map', 'CC.C06_sweep_error', 'CC.C06_dcResistance_eq',
 ]
-LEAN_MODULE_EXTRA = ['CC.Properties.C06Prune', 'CC.Properties.C06PruneReg', 'CC.Properties.C06Equiv', 'CC.Properties.C06Gen',
+LEAN_MODULE_EXTRA = ['CC.Properties.C06Prune', 'CC.Properties.C06PruneReg', 'CC.Properties.C06Equiv', 'CC.Properties.C06Gen', 'CC.Properties.C06Gen2',
                      'CC.Properties.C06Replace', 'CC.Properties.C06Fallback', 'CC.Properties.C06Elements']
 OPEN_STATEMENTS = [
     'CC.C06_impl_complete_statement (false for floating groups of nodes: C06_floating_island_counterexample)',
@@ -90,14 +95,16 @@ OPEN_STATEMENTS = [
     'transform_circuit with the sweep for a WHOLE circuit (C06_capacitor_sweep takes the per-frequency one-branch networks as given, it does not '
     'call transformCircuit); the model-level closed forms are soundness statements (IF a number is returned it is the closed form) — that the '
     'function returns on these networks is shown on concrete examples only (exOne, exSer, exPar)',
-    'translator tie (C06_gen_*) covers open_circuit_impedance and element_impedance only: open_circuit_voltage / short_circuit_current '
-    '(bias_point_analysis.py), Network/equivalent_sources.py and the wrappers of Circuit/impedance.py are NOT translated (hand model + '
-    'correspondence); a node_index_mapper other than map.default_node_mapper is outside the generated definitions as well',
+    'translator tie (C06_gen_*) covers open_circuit_impedance, element_impedance and (C06Gen2: for constructed networks, N.check = ok, '
+    'with np.any(np.isnan(·)) constantly false) open_circuit_voltage / short_circuit_current; Network/equivalent_sources.py '
+    '(TheveninEquivalentSource / NortenEquivalentSource) and the wrappers of Circuit/impedance.py are NOT translated (hand model + '
+    'correspondence); the nan fallback of __post_init__ (anyNan true) is not part of the hand model and not covered by the equality; '
+    'a node_index_mapper other than map.default_node_mapper is outside the generated definitions as well',
 ]
 ASSUMPTIONS = [
-    'the code-level theorems speak about the MODEL CC/Model/Port.lean: C06_impl_eq_spec_partial (no pruned unknown, well-posed probe network), C06_impl_eq_spec_pruned (any pruned unknowns; hypothesis: PortZ is defined), C06_elementImpedance_*, C06_openCircuitVoltage_sound, C06_shortCircuitCurrent_*, C06_thevenin_record_terminal, C06_norton_record_terminal (hypotheses: valid network, solver answers, well-posed probe network, PortZ defined); that the model is the code is a theorem for open_circuit_impedance / element_impedance (translator tie, C06_gen_*: generated-from-source definition = model, up to the trusted idiom files) and rests on the correspondence and the exact Spec oracle (op port_spec) for the other functions',
+    'the code-level theorems speak about the MODEL CC/Model/Port.lean: C06_impl_eq_spec_partial (no pruned unknown, well-posed probe network), C06_impl_eq_spec_pruned (any pruned unknowns; hypothesis: PortZ is defined), C06_elementImpedance_*, C06_openCircuitVoltage_sound, C06_shortCircuitCurrent_*, C06_thevenin_record_terminal, C06_norton_record_terminal (hypotheses: valid network, solver answers, well-posed probe network, PortZ defined); that the model is the code is a theorem for open_circuit_impedance / element_impedance / open_circuit_voltage / short_circuit_current (translator tie, C06_gen_*: generated-from-source definition = model, up to the trusted idiom files) and rests on the correspondence and the exact Spec oracle (op port_spec) for the other functions',
     'numpy.linalg.solve is a parameter of the model (certificates checked exactly by the driver); binary64 agrees with field arithmetic within 1e-7 relative on instances with cond < 1e8',
-    'hand-written model CC/Model/Port.lean: open_circuit_impedance (with its nested helper isolated) and element_impedance are regenerated from the Python AST on every run (CC/Gen/Port.lean, harness/extract_port.py) and proved equal to Net.openCircuitImpedance / Net.elementImpedance for every network, label, solver and exception path (C06_gen_open_circuit_impedance, C06_gen_element_impedance, C06_gen_value_lossless; node mapper fixed to its default); trusted there: the reading of the numpy idioms in CC/Model/PortBase.lean (A.any(axis=0), A[:, j].any(), np.count_nonzero(keep[:k]), A[np.ix_(keep, keep)], x[i] = 1, x[i], np.linalg.solve as a parameter) besides CoreBase / TransformersBase.  The REST of the model (openCircuitVoltage, shortCircuitCurrent, Thevenin/Norton records, sweep / dcResistance) is tied to the code by the oc_voltage / sc_current / equivalents / port_sweep correspondence only; port_pre / port_z / elem_z remain as run-time cross-checks of the translated part',
+    'hand-written model CC/Model/Port.lean: open_circuit_impedance (with its nested helper isolated) and element_impedance are regenerated from the Python AST on every run (CC/Gen/Port.lean, harness/extract_port.py) and proved equal to Net.openCircuitImpedance / Net.elementImpedance for every network, label, solver and exception path (C06_gen_open_circuit_impedance, C06_gen_element_impedance, C06_gen_value_lossless; node mapper fixed to its default); trusted there: the reading of the numpy idioms in CC/Model/PortBase.lean (A.any(axis=0), A[:, j].any(), np.count_nonzero(keep[:k]), A[np.ix_(keep, keep)], x[i] = 1, x[i], np.linalg.solve as a parameter) besides CoreBase / TransformersBase.  open_circuit_voltage / short_circuit_current (bias_point_analysis.py) are regenerated as well and proved equal to Net.openCircuitVoltage (up to the run-time class tag Py.Scalar) / Net.shortCircuitCurrent for every constructed network (N.check = ok), label and solver with anyNan constantly false (C06_gen_open_circuit_voltage, C06_gen_short_circuit_current; trusted in addition: CC/Model/PortBase2.lean — Py.Scalar: `return <int literal>` is a Python int, a difference of two get_potential results a numpy scalar; Py.divScalar: V / Z with ZeroDivisionError only for a Python-int V, inf/nan reported as NonFinite, V / inf = 0).  The REST of the model (Thevenin/Norton records, sweep / dcResistance) is tied to the code by the equivalents / port_sweep correspondence only (oc_voltage / sc_current remain as run-time cross-checks of the translated part); port_pre / port_z / elem_z remain as run-time cross-checks of the translated part',
     'the per-frequency networks of Circuit/impedance.py are the implementation\'s own transform_circuit outputs (modelled under C02/C07)',
     'the executable Spec (op port_spec) uses an unverified rank-revealing elimination over exact Gaussian rationals',
 ]
